@@ -22,6 +22,7 @@ type SpecCtx struct {
 	loop  *loopInfo
 	nbind int
 	useFrameVars bool
+	patCands *[]T
 }
 
 func (f *Frame) specCtxAt(st *State, b *ssa.BasicBlock, idx int) *SpecCtx {
@@ -284,7 +285,11 @@ func (c *SpecCtx) evalBin(x *EBin) *V {
 		}
 		mk := u.mapKeysOf(m.Typ)
 		k = c.coerceTo(k, mk.kt)
-		t := u.mapHas(c.st, mk, m.T, u.keyTerm(k))
+		kt := u.keyTerm(k)
+		if c.patCands != nil {
+			*c.patCands = append(*c.patCands, sel(u.mapDom(c.st, mk, m.T), kt))
+		}
+		t := u.mapHas(c.st, mk, m.T, kt)
 		if x.Op == "!in" {
 			t = not(t)
 		}
@@ -494,10 +499,93 @@ func (c *SpecCtx) evalQuant(x *EQuant) *V {
 		}
 		d.env[b.Name] = fromLeaves(t, &ts)
 	}
+	var cands []T
+	if x.Forall {
+		d.patCands = &cands
+	} else {
+		d.patCands = nil
+	}
 	body := d.evalBool(x.Body)
 	q := "forall"
 	if !x.Forall {
 		q = "exists"
+	}
+	if x.Forall && len(x.Triggers) > 0 {
+		var pats []string
+		for _, te := range x.Triggers {
+			tv := d.eval(te)
+			if tv.T.Sort == SBool {
+				// a membership atom: use the underlying select term
+				var c2 []T
+				d2 := d
+				d2.patCands = &c2
+				d2.eval(te)
+				if len(c2) > 0 {
+					pats = append(pats, c2[0].S)
+					continue
+				}
+			}
+			for _, l := range tv.leaves() {
+				pats = append(pats, l.S)
+			}
+		}
+		return boolV(T{fmt.Sprintf("(forall (%s) (! %s :pattern (%s)))", strings.Join(decls, " "), body.S, strings.Join(pats, " ")), SBool})
+	}
+	// trigger inference: membership atoms `k in m` whose terms mention bound variables of this
+	// quantifier only (no inner-bound ones) and together cover all of them
+	if x.Forall && len(cands) > 0 && u.eng.InferPatterns {
+		var names []string
+		for _, dcl := range decls {
+			names = append(names, strings.Fields(strings.Trim(dcl, "()"))[0])
+		}
+		covered := map[string]bool{}
+		var pats []string
+		for _, cand := range cands {
+			if strings.Contains(cand.S, "!b") {
+				// must not mention a bound variable of another (inner) quantifier
+				ok := true
+				for _, tok := range tokRe.FindAllString(cand.S, -1) {
+					if strings.Contains(tok, "!b") {
+						mine := false
+						for _, n := range names {
+							if tok == n {
+								mine = true
+							}
+						}
+						if !mine {
+							ok = false
+						}
+					}
+				}
+				if !ok {
+					continue
+				}
+			}
+			adds := false
+			for _, n := range names {
+				if !covered[n] && containsTok(cand.S, n) {
+					adds = true
+				}
+			}
+			if !adds {
+				continue
+			}
+			for _, n := range names {
+				if containsTok(cand.S, n) {
+					covered[n] = true
+				}
+			}
+			pats = append(pats, cand.S)
+		}
+		all := true
+		for _, n := range names {
+			if !covered[n] {
+				all = false
+			}
+		}
+		if all && len(pats) > 0 {
+			return boolV(T{fmt.Sprintf("(forall (%s) (! %s :pattern (%s)))", strings.Join(decls, " "), body.S, strings.Join(pats, " ")), SBool})
+		}
 	}
 	return boolV(T{fmt.Sprintf("(%s (%s) %s)", q, strings.Join(decls, " "), body.S), SBool})
 }
@@ -742,4 +830,13 @@ func (c *SpecCtx) evalGoal(e Expr) T {
 		d.env[b.Name] = fromLeaves(t, &ts)
 	}
 	return d.evalGoal(q.Body)
+}
+
+func containsTok(s, tok string) bool {
+	for _, t := range tokRe.FindAllString(s, -1) {
+		if t == tok {
+			return true
+		}
+	}
+	return false
 }
